@@ -51,6 +51,22 @@ func genShared(t *rapid.T) SharedCase {
 		r.DelayMs = rapid.SampledFrom([]int{0, 0, 50, 150}).Draw(t, "delay")
 		c.Rounds = append(c.Rounds, r)
 	}
+	if rapid.IntRange(0, 2).Draw(t, "race-shape") == 0 {
+		// many rounds in which every file gets one or two lines at the same instant while the consumer keeps the small
+		// queue hovering around full: the readers compete for the last free slot again and again
+		c.Queue = rapid.SampledFrom([]int{1, 2, 3}).Draw(t, "race-queue")
+		c.Rounds = nil
+		nr := rapid.IntRange(30, 80).Draw(t, "race-rounds")
+		d := rapid.SampledFrom([]int{0, 2, 5, 20}).Draw(t, "race-delay")
+		for i := 0; i < nr; i++ {
+			var r Round
+			for f := 0; f < c.Files; f++ {
+				r.Counts = append(r.Counts, 1+(i+f)%2)
+			}
+			r.DelayMs = d
+			c.Rounds = append(c.Rounds, r)
+		}
+	}
 	c.PerLineUs = rapid.SampledFrom([]int{0, 0, 200, 2000, 20000}).Draw(t, "per-line-us")
 	np := rapid.IntRange(0, 2).Draw(t, "npauses")
 	for i := 0; i < np; i++ {
